@@ -14,6 +14,17 @@ Proof. intros v t H. destruct v; try reflexivity. discriminate. Qed.
 (* the decoder configuration matching an encoder configuration's StrictUnicode *)
 Definition dcfg_of (c : econfig) (pd : bool) : dconfig := Build_dconfig pd (e_strict c) None.
 
+(* one pushed value by a leaf instruction: nothing else in the decoder state changes (object ids may
+   be consumed) *)
+Definition pushes_leaf (cfg : dconfig) (bytes_ : bytes) (t : tval) : Prop :=
+  forall i st rest,
+    exists i' st' x,
+      exec cfg i st (bytes_ ++ rest) i' st' rest /\
+      d_stack st' = x :: d_stack st /\ erase x = Some t /\
+      d_memo st' = d_memo st /\ d_proto st' = d_proto st /\ d_heap st' = d_heap st /\
+      d_lens st' = d_lens st /\ d_stale st' = d_stale st /\ d_log st' = d_log st /\ d_next st <= d_next st' /\
+      i' = i + 1.
+
 (* one pushed value: the shape every "encode v" lemma has *)
 Definition pushes (cfg : dconfig) (bytes_ : bytes) (t : tval) : Prop :=
   forall i st rest,
@@ -22,25 +33,31 @@ Definition pushes (cfg : dconfig) (bytes_ : bytes) (t : tval) : Prop :=
       d_stack st' = x :: d_stack st /\ erase x = Some t /\
       d_memo st' = d_memo st /\ d_proto st' = d_proto st /\ d_heap st' = d_heap st.
 
+Lemma pushes_of_leaf : forall cfg b t, pushes_leaf cfg b t -> pushes cfg b t.
+Proof.
+  intros cfg b t H i st rest. destruct (H i st rest) as [i' [st' [x [E [S [T [M [P [Hh _]]]]]]]]].
+  exists i', st', x. repeat split; assumption.
+Qed.
+
 (* ---- leaves -------------------------------------------------------------------------------------- *)
 
-Lemma push_none : forall cfg, pushes cfg [x4e] TNone.
+Lemma push_none_leaf : forall cfg, pushes_leaf cfg [x4e] TNone.
 Proof. intros cfg i st rest. eexists; eexists; eexists. split; [eapply exec_one; reflexivity|repeat split; reflexivity]. Qed.
 
-Lemma push_newbool : forall cfg (b : bool), pushes cfg [(if b then x88 else x89)] (TBool b).
+Lemma push_newbool_leaf : forall cfg (b : bool), pushes_leaf cfg [(if b then x88 else x89)] (TBool b).
 Proof.
   intros cfg b i st rest. destruct b; eexists; eexists; eexists;
     (split; [eapply exec_one; reflexivity|repeat split; reflexivity]).
 Qed.
 
-Lemma push_textbool : forall cfg (b : bool),
-  pushes cfg (if b then bs "I01" ++ [x0a] else bs "I00" ++ [x0a]) (TBool b).
+Lemma push_textbool_leaf : forall cfg (b : bool),
+  pushes_leaf cfg (if b then bs "I01" ++ [x0a] else bs "I00" ++ [x0a]) (TBool b).
 Proof.
   intros cfg b i st rest. destruct b; eexists; eexists; eexists;
     (split; [eapply exec_one; reflexivity|repeat split; reflexivity]).
 Qed.
 
-Lemma push_binint1 : forall cfg z, (0 <= z <= 255)%Z -> pushes cfg [x4b; Z2b z] (TInt z).
+Lemma push_binint1_leaf : forall cfg z, (0 <= z <= 255)%Z -> pushes_leaf cfg [x4b; Z2b z] (TInt z).
 Proof.
   intros cfg z H i st rest.
   assert (E : Z2b z = N2b (Z.to_N z)).
@@ -53,7 +70,7 @@ Qed.
 Lemma le_encode_2 : forall n, le_encode 2 n = [N2b n; N2b (n / 256)].
 Proof. reflexivity. Qed.
 
-Lemma push_binint2 : forall cfg z, (0 <= z <= 65535)%Z -> pushes cfg [x4d; Z2b z; Z2b (z / 256)] (TInt z).
+Lemma push_binint2_leaf : forall cfg z, (0 <= z <= 65535)%Z -> pushes_leaf cfg [x4d; Z2b z; Z2b (z / 256)] (TInt z).
 Proof.
   intros cfg z H i st rest.
   assert (E : [Z2b z; Z2b (z / 256)] = le_encode 2 (Z.to_N z)).
@@ -71,8 +88,8 @@ Proof.
   - rewrite Z2N.id by lia. repeat split; reflexivity.
 Qed.
 
-Lemma push_binint : forall cfg z, (-2147483648 <= z <= 2147483647)%Z ->
-  pushes cfg (x4a :: le_encode 4 (Z.to_N (wrap_u 32 z))) (TInt z).
+Lemma push_binint_leaf : forall cfg z, (-2147483648 <= z <= 2147483647)%Z ->
+  pushes_leaf cfg (x4a :: le_encode 4 (Z.to_N (wrap_u 32 z))) (TInt z).
 Proof.
   intros cfg z H i st rest. eexists; eexists; eexists. split.
   - cbn [app]. eapply exec_one; [reflexivity|reflexivity|]. apply binint_form. exact H.
@@ -80,8 +97,8 @@ Proof.
 Qed.
 
 (* INT text: an int64, or a *big.Int when the integer does not fit *)
-Lemma push_int_text : forall cfg z,
-  pushes cfg (x49 :: dec_of_Z z ++ [x0a]) (if in_int64 z then TInt z else TBig z).
+Lemma push_int_text_leaf : forall cfg z,
+  pushes_leaf cfg (x49 :: dec_of_Z z ++ [x0a]) (if in_int64 z then TInt z else TBig z).
 Proof.
   intros cfg z i st rest. cbn [app]. rewrite <- app_assoc. cbn [app].
   assert (R : run (handler cfg OInt x49 (i + 1) st) (dec_of_Z z ++ x0a :: rest) =
@@ -91,10 +108,10 @@ Proof.
     destruct (dec_of_Z_not_bool z) as [N0 N1]. rewrite N0, N1, parse_int64_dec_of_Z.
     destruct (in_int64 z); [reflexivity|]. rewrite parse_dec_Z_dec_of_Z. reflexivity. }
   destruct (in_int64 z); (eexists; eexists; eexists; split;
-    [eapply exec_one; [reflexivity|reflexivity|exact R]|repeat split; reflexivity]).
+    [eapply exec_one; [reflexivity|reflexivity|exact R]|repeat split; try reflexivity; cbn; lia]).
 Qed.
 
-Lemma push_long_text : forall cfg z, pushes cfg (x4c :: dec_of_Z z ++ [x4c; x0a]) (TBig z).
+Lemma push_long_text_leaf : forall cfg z, pushes_leaf cfg (x4c :: dec_of_Z z ++ [x4c; x0a]) (TBig z).
 Proof.
   intros cfg z i st rest. cbn [app]. rewrite <- app_assoc. cbn [app].
   assert (R : run (handler cfg OLong x4c (i + 1) st) (dec_of_Z z ++ x4c :: x0a :: rest) =
@@ -107,7 +124,7 @@ Proof.
     rewrite lastb_app_one. change (negb (beqb x4c "L")) with false. cbn match.
     rewrite removelast_last, parse_dec_Z_dec_of_Z. reflexivity. }
   eexists; eexists; eexists. split; [eapply exec_one; [reflexivity|reflexivity|exact R]|].
-  repeat split; reflexivity.
+  repeat split; try reflexivity; cbn; lia.
 Qed.
 
 Lemma be_encode_decode : forall n v, v < 256 ^ N.of_nat n -> be_decode (be_encode n v) = v.
@@ -118,7 +135,7 @@ Qed.
 Lemma be_encode_length : forall n v, length (be_encode n v) = n.
 Proof. intros. unfold be_encode. rewrite rev_length. apply le_encode_length. Qed.
 
-Lemma push_binfloat : forall cfg f, f < 2 ^ 64 -> pushes cfg (x47 :: be_encode 8 f) (TFloat f).
+Lemma push_binfloat_leaf : forall cfg f, f < 2 ^ 64 -> pushes_leaf cfg (x47 :: be_encode 8 f) (TFloat f).
 Proof.
   intros cfg f H i st rest. cbn [app].
   assert (R : run (handler cfg OBinfloat x47 (i + 1) st) (be_encode 8 f ++ rest) =
@@ -126,7 +143,7 @@ Proof.
   { cbn [handler run]. change 8 with (Nlen (be_encode 8 f)) at 1.
     rewrite take_n_exact. cbn [run ok]. rewrite be_encode_decode by exact H. reflexivity. }
   eexists; eexists; eexists. split; [eapply exec_one; [reflexivity|reflexivity|exact R]|].
-  repeat split; reflexivity.
+  repeat split; try reflexivity; cbn; lia.
 Qed.
 
 (* counted payloads: a 1-byte or a 4-byte length, then the bytes *)
@@ -151,8 +168,8 @@ Qed.
 
 Definition bytestring_t (cfg : dconfig) (s : bytes) : tval := if c_strict cfg then TBStr s else TStr s.
 
-Lemma push_short_binstring : forall cfg s, Nlen s < 256 ->
-  pushes cfg (x55 :: N2b (Nlen s) :: s) (bytestring_t cfg s).
+Lemma push_short_binstring_leaf : forall cfg s, Nlen s < 256 ->
+  pushes_leaf cfg (x55 :: N2b (Nlen s) :: s) (bytestring_t cfg s).
 Proof.
   intros cfg s H i st rest. cbn [app].
   assert (R : run (handler cfg OShortBinstring x55 (i + 1) st) (N2b (Nlen s) :: s ++ rest) =
@@ -162,8 +179,8 @@ Proof.
     [eapply exec_one; [reflexivity|reflexivity|exact R]|repeat split; reflexivity]).
 Qed.
 
-Lemma push_binstring : forall cfg s, Nlen s < 4294967296 ->
-  pushes cfg (x54 :: u32le (Nlen s) ++ s) (bytestring_t cfg s).
+Lemma push_binstring_leaf : forall cfg s, Nlen s < 4294967296 ->
+  pushes_leaf cfg (x54 :: u32le (Nlen s) ++ s) (bytestring_t cfg s).
 Proof.
   intros cfg s H i st rest. cbn [app]. rewrite <- app_assoc.
   assert (R : run (handler cfg OBinstring x54 (i + 1) st) (u32le (Nlen s) ++ s ++ rest) =
@@ -173,52 +190,52 @@ Proof.
     [eapply exec_one; [reflexivity|reflexivity|exact R]|repeat split; reflexivity]).
 Qed.
 
-Lemma push_short_binunicode : forall cfg s, Nlen s < 256 ->
-  pushes cfg (x8c :: N2b (Nlen s) :: s) (TStr s).
+Lemma push_short_binunicode_leaf : forall cfg s, Nlen s < 256 ->
+  pushes_leaf cfg (x8c :: N2b (Nlen s) :: s) (TStr s).
 Proof.
   intros cfg s H i st rest. cbn [app].
   assert (R : run (handler cfg OShortBinunicode x8c (i + 1) st) (N2b (Nlen s) :: s ++ rest) =
               (Ok (HOk (push (VStr s) st)), rest)).
   { cbn [handler]. rewrite run_short by exact H. reflexivity. }
   eexists; eexists; eexists. split; [eapply exec_one; [reflexivity|reflexivity|exact R]|].
-  repeat split; reflexivity.
+  repeat split; try reflexivity; cbn; lia.
 Qed.
 
-Lemma push_binunicode : forall cfg s, Nlen s < 4294967296 ->
-  pushes cfg (x58 :: u32le (Nlen s) ++ s) (TStr s).
+Lemma push_binunicode_leaf : forall cfg s, Nlen s < 4294967296 ->
+  pushes_leaf cfg (x58 :: u32le (Nlen s) ++ s) (TStr s).
 Proof.
   intros cfg s H i st rest. cbn [app]. rewrite <- app_assoc.
   assert (R : run (handler cfg OBinunicode x58 (i + 1) st) (u32le (Nlen s) ++ s ++ rest) =
               (Ok (HOk (push (VStr s) st)), rest)).
   { cbn [handler]. rewrite run_long4 by exact H. reflexivity. }
   eexists; eexists; eexists. split; [eapply exec_one; [reflexivity|reflexivity|exact R]|].
-  repeat split; reflexivity.
+  repeat split; try reflexivity; cbn; lia.
 Qed.
 
-Lemma push_short_binbytes : forall cfg s, Nlen s < 256 ->
-  pushes cfg (x43 :: N2b (Nlen s) :: s) (TBytes s).
+Lemma push_short_binbytes_leaf : forall cfg s, Nlen s < 256 ->
+  pushes_leaf cfg (x43 :: N2b (Nlen s) :: s) (TBytes s).
 Proof.
   intros cfg s H i st rest. cbn [app].
   assert (R : run (handler cfg OShortBinbytes x43 (i + 1) st) (N2b (Nlen s) :: s ++ rest) =
               (Ok (HOk (push (VBytes s) st)), rest)).
   { cbn [handler]. rewrite run_short by exact H. reflexivity. }
   eexists; eexists; eexists. split; [eapply exec_one; [reflexivity|reflexivity|exact R]|].
-  repeat split; reflexivity.
+  repeat split; try reflexivity; cbn; lia.
 Qed.
 
-Lemma push_binbytes : forall cfg s, Nlen s < 4294967296 ->
-  pushes cfg (x42 :: u32le (Nlen s) ++ s) (TBytes s).
+Lemma push_binbytes_leaf : forall cfg s, Nlen s < 4294967296 ->
+  pushes_leaf cfg (x42 :: u32le (Nlen s) ++ s) (TBytes s).
 Proof.
   intros cfg s H i st rest. cbn [app]. rewrite <- app_assoc.
   assert (R : run (handler cfg OBinbytes x42 (i + 1) st) (u32le (Nlen s) ++ s ++ rest) =
               (Ok (HOk (push (VBytes s) st)), rest)).
   { cbn [handler]. rewrite run_long4 by exact H. reflexivity. }
   eexists; eexists; eexists. split; [eapply exec_one; [reflexivity|reflexivity|exact R]|].
-  repeat split; reflexivity.
+  repeat split; try reflexivity; cbn; lia.
 Qed.
 
-Lemma push_bytearray8 : forall cfg s, Nlen s < 2 ^ 63 ->
-  pushes cfg (x96 :: le_encode 8 (Nlen s) ++ s) (TBArr s).
+Lemma push_bytearray8_leaf : forall cfg s, Nlen s < 2 ^ 63 ->
+  pushes_leaf cfg (x96 :: le_encode 8 (Nlen s) ++ s) (TBArr s).
 Proof.
   intros cfg s H i st rest. cbn [app]. rewrite <- app_assoc.
   assert (R : run (handler cfg OBytearray8 x96 (i + 1) st) (le_encode 8 (Nlen s) ++ s ++ rest) =
@@ -228,12 +245,12 @@ Proof.
     assert (E : (max_int64_N <? Nlen s) = false) by (apply N.ltb_ge; unfold max_int64_N; lia).
     rewrite E. cbn [run]. rewrite take_n_exact. reflexivity. }
   eexists; eexists; eexists. split; [eapply exec_one; [reflexivity|reflexivity|exact R]|].
-  repeat split; reflexivity.
+  repeat split; try reflexivity; cbn; lia.
 Qed.
 
 (* GLOBAL module\nname\n *)
-Lemma push_global : forall cfg m n, no_lf m -> no_lf n ->
-  pushes cfg (x63 :: m ++ [x0a] ++ n ++ [x0a]) (TClass m n).
+Lemma push_global_leaf : forall cfg m n, no_lf m -> no_lf n ->
+  pushes_leaf cfg (x63 :: m ++ [x0a] ++ n ++ [x0a]) (TClass m n).
 Proof.
   intros cfg m n Hm Hn i st rest. cbn [app].
   assert (E : (m ++ x0a :: n ++ [x0a]) ++ rest = m ++ x0a :: (n ++ x0a :: rest)).
@@ -244,8 +261,71 @@ Proof.
   { cbn [handler run]. rewrite (split_line_exact m _ Hm). cbn [run].
     rewrite (split_line_exact n _ Hn). reflexivity. }
   eexists; eexists; eexists. split; [eapply exec_one; [reflexivity|reflexivity|exact R]|].
-  repeat split; reflexivity.
+  repeat split; try reflexivity; cbn; lia.
 Qed.
+
+(* the same lemmas in the weaker form used by the round trip *)
+Lemma push_none : forall cfg, pushes cfg [x4e] TNone.
+Proof. intros. apply pushes_of_leaf. apply push_none_leaf; assumption. Qed.
+
+Lemma push_newbool : forall cfg (b : bool), pushes cfg [(if b then x88 else x89)] (TBool b).
+Proof. intros. apply pushes_of_leaf. apply push_newbool_leaf; assumption. Qed.
+
+Lemma push_textbool : forall cfg (b : bool),
+  pushes cfg (if b then bs "I01" ++ [x0a] else bs "I00" ++ [x0a]) (TBool b).
+Proof. intros. apply pushes_of_leaf. apply push_textbool_leaf; assumption. Qed.
+
+Lemma push_binint1 : forall cfg z, (0 <= z <= 255)%Z -> pushes cfg [x4b; Z2b z] (TInt z).
+Proof. intros. apply pushes_of_leaf. apply push_binint1_leaf; assumption. Qed.
+
+Lemma push_binint2 : forall cfg z, (0 <= z <= 65535)%Z -> pushes cfg [x4d; Z2b z; Z2b (z / 256)] (TInt z).
+Proof. intros. apply pushes_of_leaf. apply push_binint2_leaf; assumption. Qed.
+
+Lemma push_binint : forall cfg z, (-2147483648 <= z <= 2147483647)%Z ->
+  pushes cfg (x4a :: le_encode 4 (Z.to_N (wrap_u 32 z))) (TInt z).
+Proof. intros. apply pushes_of_leaf. apply push_binint_leaf; assumption. Qed.
+
+Lemma push_int_text : forall cfg z,
+  pushes cfg (x49 :: dec_of_Z z ++ [x0a]) (if in_int64 z then TInt z else TBig z).
+Proof. intros. apply pushes_of_leaf. apply push_int_text_leaf; assumption. Qed.
+
+Lemma push_long_text : forall cfg z, pushes cfg (x4c :: dec_of_Z z ++ [x4c; x0a]) (TBig z).
+Proof. intros. apply pushes_of_leaf. apply push_long_text_leaf; assumption. Qed.
+
+Lemma push_binfloat : forall cfg f, f < 2 ^ 64 -> pushes cfg (x47 :: be_encode 8 f) (TFloat f).
+Proof. intros. apply pushes_of_leaf. apply push_binfloat_leaf; assumption. Qed.
+
+Lemma push_short_binstring : forall cfg s, Nlen s < 256 ->
+  pushes cfg (x55 :: N2b (Nlen s) :: s) (bytestring_t cfg s).
+Proof. intros. apply pushes_of_leaf. apply push_short_binstring_leaf; assumption. Qed.
+
+Lemma push_binstring : forall cfg s, Nlen s < 4294967296 ->
+  pushes cfg (x54 :: u32le (Nlen s) ++ s) (bytestring_t cfg s).
+Proof. intros. apply pushes_of_leaf. apply push_binstring_leaf; assumption. Qed.
+
+Lemma push_short_binunicode : forall cfg s, Nlen s < 256 ->
+  pushes cfg (x8c :: N2b (Nlen s) :: s) (TStr s).
+Proof. intros. apply pushes_of_leaf. apply push_short_binunicode_leaf; assumption. Qed.
+
+Lemma push_binunicode : forall cfg s, Nlen s < 4294967296 ->
+  pushes cfg (x58 :: u32le (Nlen s) ++ s) (TStr s).
+Proof. intros. apply pushes_of_leaf. apply push_binunicode_leaf; assumption. Qed.
+
+Lemma push_short_binbytes : forall cfg s, Nlen s < 256 ->
+  pushes cfg (x43 :: N2b (Nlen s) :: s) (TBytes s).
+Proof. intros. apply pushes_of_leaf. apply push_short_binbytes_leaf; assumption. Qed.
+
+Lemma push_binbytes : forall cfg s, Nlen s < 4294967296 ->
+  pushes cfg (x42 :: u32le (Nlen s) ++ s) (TBytes s).
+Proof. intros. apply pushes_of_leaf. apply push_binbytes_leaf; assumption. Qed.
+
+Lemma push_bytearray8 : forall cfg s, Nlen s < 2 ^ 63 ->
+  pushes cfg (x96 :: le_encode 8 (Nlen s) ++ s) (TBArr s).
+Proof. intros. apply pushes_of_leaf. apply push_bytearray8_leaf; assumption. Qed.
+
+Lemma push_global : forall cfg m n, no_lf m -> no_lf n ->
+  pushes cfg (x63 :: m ++ [x0a] ++ n ++ [x0a]) (TClass m n).
+Proof. intros. apply pushes_of_leaf. apply push_global_leaf; assumption. Qed.
 
 (* ---- sequences of pushed values -------------------------------------------------------------------- *)
 
